@@ -295,7 +295,7 @@ def run_case(case, work, rec):
         for pi, pv in enumerate((np.nan, 1e30)):
             poison.set_poison(pv)
             pools.CTL.reset(mode="inproc", seed=rng.randrange(10 ** 6))
-            out = os.path.join(work, f"slice{pi}")
+            out = workload.out_path(work, f"slice{pi}", pi + 1, rec)
             # the requested output may exist already: every third request finds the slice plotfile of an
             # earlier request there (another plane / field list / limit), every third an empty directory.
             # The tool may refuse; after a normal return the path holds the slice that was asked for.
